@@ -181,18 +181,28 @@ oscore_encode_option_value(uint8_t *option_buffer,
   }
   option_buffer[0] = 0;
 
+  if (option_buf_len < 1)
+    return 0;
+  rem_space--;
+
   if (cose->partial_iv.length > 0 && cose->partial_iv.length <= 5 &&
       cose->partial_iv.s != NULL) {
+    if (rem_space < cose->partial_iv.length)
+      return 0;
     option_buffer[0] |= (0x07 & cose->partial_iv.length);
     memcpy(&(option_buffer[offset]),
            cose->partial_iv.s,
            cose->partial_iv.length);
     offset += cose->partial_iv.length;
-    assert(rem_space > cose->partial_iv.length);
     rem_space -= cose->partial_iv.length;
   }
 
   if (cose->kid_context.length > 0 && cose->kid_context.s != NULL) {
+    /* length byte + kid context (+ up to 3 bytes of CBOR head) must fit */
+    if (cose->kid_context.length > 255 ||
+        rem_space < 1 + cose->kid_context.length + (appendix_b_2 ? 3 : 0))
+      return 0;
+    rem_space--;
     if (appendix_b_2) {
       /* Need to CBOR wrap kid_context - yuk! */
       uint8_t *ptr = &option_buffer[offset+1];
@@ -210,17 +220,17 @@ oscore_encode_option_value(uint8_t *option_buffer,
              cose->kid_context.s,
              (uint8_t)cose->kid_context.length);
       offset += cose->kid_context.length;
-      assert(rem_space > cose->kid_context.length);
       rem_space -= cose->kid_context.length;
     }
   }
 
   if (cose->key_id.s != NULL) {
+    if (rem_space < cose->key_id.length)
+      return 0;
     option_buffer[0] |= 0x08;
     if (cose->key_id.length) {
       memcpy(&(option_buffer[offset]), cose->key_id.s, cose->key_id.length);
       offset += cose->key_id.length;
-      assert(rem_space > cose->key_id.length);
       rem_space -= cose->key_id.length;
     }
   }
